@@ -579,6 +579,7 @@ func (st *tunnelServerStream) readMsgLocked() (data []byte, ok bool, err error) 
 			return nil, true, err
 		}
 
+		verifYield("server.read.beforeDequeue")
 		in, ok := st.receiver.dequeue()
 		if !ok {
 			verifYield("server.read.dequeueFalse")
